@@ -11,6 +11,8 @@ let step_oracles (bump : str -> unit) (pre : vt) (f : func) (post : vt) : (str *
   in
   chk "C02" "state" (holds_C02_state post);
   chk "C04" "print" (holds_C04 pre f post);
+  (* "marks the row it left as soft-wrapped": claimed outside the known-finding class KF-C04-1 (reported by the caller) *)
+  if not (kf1_C04 pre f) then chk "C04" "wrap_mark" (holds_C04_wrapmark pre f post);
   chk "C05" "cursor" (holds_C05 pre f post);
   chk "C06" "scroll" (holds_C06 pre f post);
   chk "C06" "margins_modes" (holds_C06_modes pre f post);
